@@ -82,6 +82,13 @@ def run(ck, fx, cg, tier):
     _frame(ck, fx)
     _doc(ck, fx)
     _notrailing(ck, fx, cg)
+    # "any file in that layout is loaded as the program it denotes": the loader sees the file's own bytes
+    from . import shared
+    sites = shared.reader_transparency(fx)
+    for fn, where, ok, why in sites:
+        ck.ob("R4.source", "%s|input reader" % fn, ok, where,
+              "the input reader is %s" % why if ok else "the bytes of a file can be altered before the loader sees them: the input reader is %s" % why)
+    ck.floor("R4.source", "places that build the CLI's input reader", len(sites), 2)
 
 
 def _frame(ck, fx):
